@@ -1,5 +1,6 @@
 import Driver.Util
 import GtirbVerif.Model.Abi.Prologue
+import GtirbVerif.Model.Abi.Call
 import GtirbVerif.Gen.AbiFull
 
 /-! Line-protocol handlers for the ABI engine (C16, C17). -/
@@ -139,6 +140,136 @@ def handle (op : String) (j : Json) : Option (Except String Json) :=
     let fails := sps.flatMap (fun sp0 =>
       (List.range 2).flatMap (fun t =>
         checkWrapper abi.cell (abi.family == .x64) pre post restore flags guard adj align sp0 t))
+    .ok (Json.mkObj [("fails", strsJ fails.eraseDups)])
+  | _ => none
+
+end Driver.Abi
+
+namespace Driver.Abi
+open Lean Driver GtirbVerif GtirbVerif.Abi
+
+def argValOf (j : Json) : Except String ArgVal :=
+  match j.getInt? with
+  | .ok v => .ok (.int v)
+  | .error _ => do let s ← getStr j "sym"; .ok (.sym s)
+
+def convOf (j : Json) : Except String Conv := do
+  .ok { regs := ← strList j "regs", align := ← getNat j "align",
+        callerCleanup := ← getBool j "caller_cleanup", shadow := ← getNat j "shadow" }
+
+def cinstrJ : CInstr → Json
+  | .subSp n => Json.arr #["subSp", jnat n]
+  | .addSp n => Json.arr #["addSp", jnat n]
+  | .movImm r v => Json.arr #["movImm", r, jint v]
+  | .movSym r s => Json.arr #["movSym", r, s]
+  | .pushImm v => Json.arr #["pushImm", jint v]
+  | .pushSym s => Json.arr #["pushSym", s]
+  | .call f => Json.arr #["call", f]
+  | .movSmall r v => Json.arr #["movSmall", r, jint v]
+  | .movz r c => Json.arr #["movz", r, jnat c]
+  | .movk r c s => Json.arr #["movk", r, jnat c, jnat s]
+  | .adrp r s => Json.arr #["adrp", r, s]
+  | .addLo12 r s => Json.arr #["addLo12", r, s]
+  | .strSlot r s => Json.arr #["strSlot", r, jnat s]
+  | .bl f => Json.arr #["bl", f]
+
+def cinstrOf (j : Json) : Except String CInstr := do
+  let a ← j.getArr?
+  let s (i : Nat) : Except String String := match a[i]? with
+    | some v => v.getStr?
+    | none => .error "missing operand"
+  let n (i : Nat) : Except String Nat := match a[i]? with
+    | some v => v.getNat?
+    | none => .error "missing operand"
+  let z (i : Nat) : Except String Int := match a[i]? with
+    | some v => v.getInt?
+    | none => .error "missing operand"
+  match ← s 0 with
+  | "subSp" => .ok (.subSp (← n 1))
+  | "addSp" => .ok (.addSp (← n 1))
+  | "movImm" => .ok (.movImm (← s 1) (← z 2))
+  | "movSym" => .ok (.movSym (← s 1) (← s 2))
+  | "pushImm" => .ok (.pushImm (← z 1))
+  | "pushSym" => .ok (.pushSym (← s 1))
+  | "call" => .ok (.call (← s 1))
+  | "movSmall" => .ok (.movSmall (← s 1) (← z 2))
+  | "movz" => .ok (.movz (← s 1) (← n 2))
+  | "movk" => .ok (.movk (← s 1) (← n 2) (← n 3))
+  | "adrp" => .ok (.adrp (← s 1) (← s 2))
+  | "addLo12" => .ok (.addLo12 (← s 1) (← s 2))
+  | "strSlot" => .ok (.strSlot (← s 1) (← n 2))
+  | "bl" => .ok (.bl (← s 1))
+  | o => .error s!"unknown call instruction {o}"
+
+def symAddr (s : String) : Int := 0x400000 + hashStr s % 4000 * 16 + 8
+def symContents (s : String) : Int := 0x1234567 + hashStr s
+
+/-- SPEC: what must hold at the call and after the sequence -/
+def checkCall (isa : String) (W : Int) (conv : Conv) (f : String) (args : List ArgVal)
+    (adj : Option Nat) (instrs : List CInstr) (sp0 : Int) : List String :=
+  let env : SymEnv := { addr := symAddr, contents := symContents }
+  let entry : Int := sp0 - (adj.getD 0 : Nat)
+  let nStack := args.length - conv.regs.length
+  let calleePops : Int := if conv.callerCleanup then 0 else W * nStack
+  let (lo, hi) : Int × Int := if isa == "X64" then (-(2 ^ 31), 2 ^ 31) else (-(2 ^ 31), 2 ^ 32)
+  let σ : CM := { reg := fun r => hashStr r, sp := entry, mem := fun _ => none }
+  -- register names are case-insensitive in the assembly text
+  let lower (g : String → Int) : String → Int := g
+  match crun env W lo hi calleePops instrs σ with
+  | .error (.immRange w) => [s!"the assembler rejects an operand of `{w}` (value outside the encodable range)"]
+  | .error .other => ["machine error"]
+  | .ok σ' =>
+    match σ'.snap with
+    | none => ["no call instruction was executed"]
+    | some (callee, regs, spc, mem) =>
+      let modv (v : Int) : Int := v % (2 ^ (8 * W.toNat) : Int)
+      let expect : ArgVal → Int
+        | .int v => modv v
+        | .sym s => symAddr s
+      let idx := List.range args.length
+      let f1 := idx.filterMap (fun i =>
+        match args[i]?, conv.regs[i]? with
+        | some a, some r =>
+          if modv (lower regs r) = expect a then none
+          else some s!"argument {i}: register {r} holds {modv (regs r)}, expected {expect a} ({if (match a with | .sym _ => true | _ => false) then "the symbol's address" else "the integer"})"
+        | some a, none =>
+          let j := i - conv.regs.length
+          match mem (spc + conv.shadow + W * j) with
+          | some v => if modv v = expect a then none
+                      else some s!"argument {i}: stack slot {j} holds {modv v}, expected {expect a} ({if (match a with | .sym _ => true | _ => false) then "the symbol's address" else "the integer"})"
+          | none => some s!"argument {i}: stack slot {j} above the shadow space was not written"
+        | none, _ => none)
+      let f2 := if conv.align != 0 && spc % (conv.align : Int) != 0 then
+        [s!"stack pointer at the call is {spc % (conv.align : Int)} mod {conv.align}"] else []
+      let f3 := if σ'.sp = entry then [] else [s!"stack pointer not restored: off by {σ'.sp - entry}"]
+      let f4 := if callee == f then [] else [s!"calls {callee} instead of {f}"]
+      f1 ++ f2 ++ f3 ++ f4
+
+def handleCall (op : String) (j : Json) : Option (Except String Json) :=
+  match op with
+  | "call_gen" => some do
+    let isa ← getStr j "isa"
+    let conv ← convOf (← j.getObjVal? "conv")
+    let f ← getStr j "f"
+    let args ← (← getArr j "args").toList.mapM argValOf
+    let adj ← match ← j.getObjVal? "adj" with
+      | .null => pure none
+      | v => do pure (some (← v.getNat?))
+    let W ← getNat j "W"
+    let is := if isa == "ARM64" then arm64Call conv f args else x86Call W conv f args adj
+    .ok (Json.mkObj [("instrs", Json.arr (is.map cinstrJ).toArray)])
+  | "call_check" => some do
+    let isa ← getStr j "isa"
+    let conv ← convOf (← j.getObjVal? "conv")
+    let f ← getStr j "f"
+    let args ← (← getArr j "args").toList.mapM argValOf
+    let adj ← match ← j.getObjVal? "adj" with
+      | .null => pure none
+      | v => do pure (some (← v.getNat?))
+    let W ← getNat j "W"
+    let instrs ← (← getArr j "instrs").toList.mapM cinstrOf
+    let sps ← getIntList j "sps"
+    let fails := sps.flatMap (fun sp0 => checkCall isa W conv f args adj instrs sp0)
     .ok (Json.mkObj [("fails", strsJ fails.eraseDups)])
   | _ => none
 
